@@ -14,7 +14,7 @@ from common import U
 EXTRA_COQ_FILES = ('GenFacts/ConstantsOK.v',)
 RULE = ('index channels of all 8 dtypes with integer-valued data: patterns increasing / decreasing / constant / non-monotonic / uniform / '
         'nearly uniform increasing and decreasing (deviation <= 2%% or >= 5%%, away from the 3.16%% threshold) / single row / wrapping-prone (uint8 descending, int8 '
-        'large steps); windows; index type present or absent; user-supplied index_min / index_max / spacing / direction. Distinct by '
+        'large steps); windows; index type present or absent; user-supplied index_min / index_max / spacing / direction (one or two of them, incl. 0 and values contradicting the data, as plain values, AttrSetup with / without units, dict). Distinct by '
         '(dtype, pattern, rows, window, user values).')
 ASSUMPTIONS = ['float index data off the exactly representable grid or within 1e-9 of the tolerance threshold are below the model (numpy float arithmetic)']
 PARTIAL = ('sequences of writes of one DLISFile with different data: values derived at the first write persist (INDEX-MIN/MAX, SPACING, '
@@ -80,16 +80,23 @@ def run(ctx):
         b = rng.choice([None, None] + list(range(a + 1, rows + 1)))
         indexed = rng.random() < 0.85
         user = {}
-        if rng.random() < 0.25:
-            pick = rng.choice(['index_min', 'index_max', 'spacing', 'direction'])
-            user[pick] = 'INCREASING' if pick == 'direction' else float(rng.choice([-5, 0, 7.5, 1000]))
+        routes = {}
+        if rng.random() < 0.4:
+            for pick in rng.sample(['index_min', 'index_max', 'spacing', 'direction'], rng.choice([1, 1, 2])):
+                user[pick] = rng.choice(['INCREASING', 'DECREASING']) if pick == 'direction' else float(rng.choice([-5, 0, 0, 7.5, -0.25, 1000]))
+                routes[pick] = 'plain' if pick == 'direction' else rng.choice(['plain', 'AttrSetup', 'AttrSetup-units', 'dict'])
         df = DLISFile()
         lf = df.add_logical_file()
         lf.add_origin('O', file_set_number=1, creation_time='2020/01/01 00:00:00')
         units = rng.choice([None, 'm', 's'])
         ch = lf.add_channel('IDX', data=np.array(vals, dtype=dtype), units=units)
         ch2 = lf.add_channel('OTHER', data=np.arange(rows, dtype=np.float64))
-        fr = lf.add_frame('F', channels=[ch, ch2], index_type='BOREHOLE-DEPTH' if indexed else None, **user)
+        from dliswriter import AttrSetup
+
+        def routed(key):
+            v, r = user[key], routes[key]
+            return v if r == 'plain' else AttrSetup(v) if r == 'AttrSetup' else AttrSetup(v, 'm') if r == 'AttrSetup-units' else {'value': v}
+        fr = lf.add_frame('F', channels=[ch, ch2], index_type='BOREHOLE-DEPTH' if indexed else None, **{key: routed(key) for key in user})
         kw = {'from_idx': a}
         if b is not None:
             kw['to_idx'] = b
@@ -98,7 +105,7 @@ def run(ctx):
         ctx.count('K-index', key=(dtype, pat, rows, a, b, indexed, tuple(sorted(user))))
         ctx.stat('K-index', 'pattern_' + pat)
         ctx.stat('K-index', 'dtype_' + dtype)
-        det = {'dtype': dtype, 'pattern': pat, 'index_values': vals, 'window': [a, b], 'index_type': indexed, 'user': user, 'units': units}
+        det = {'dtype': dtype, 'pattern': pat, 'index_values': vals, 'window': [a, b], 'index_type': indexed, 'user': user, 'routes': routes, 'units': units}
         if o[0] != 'ok':
             ctx.violation('write-raises-for-valid-index-data', {**det, 'impl': o})
             continue
@@ -128,9 +135,10 @@ def run(ctx):
             ctx.violation('index-metadata-differs-from-rows-written', {**det, 'rows_written': win, 'decoded': {k2: repr(v) for k2, v in got.items()},
                                                                       'expected': {k2: repr(v) for k2, v in want.items()}})
         if indexed and units:
-            for lab in ('INDEX-MIN', 'INDEX-MAX'):
-                if fo.attrs[lab].units != units:
-                    ctx.violation('index-units-not-taken-from-index-channel', {**det, 'label': lab, 'units': fo.attrs[lab].units})
+            for key, lab in (('index_min', 'INDEX-MIN'), ('index_max', 'INDEX-MAX')):
+                want_units = 'm' if routes.get(key) == 'AttrSetup-units' else units       # units the user gave are kept
+                if fo.attrs[lab].units != want_units:
+                    ctx.violation('index-units-not-taken-from-index-channel', {**det, 'label': lab, 'decoded_units': fo.attrs[lab].units, 'expected_units': want_units})
         if k % 19 == 0:
             ctx.sample({'stream': 'K-index', **det, 'decoded': {k2: repr(v) for k2, v in got.items()}})
 
